@@ -57,7 +57,7 @@ def gen_func(rnd, name, callees):
     if rnd.random() < .15 and decls and decls[0][0] == 'raises': decls.append(['raises', rnd.sample(EXCS, 1)])
     rnd.shuffle(decls)
     doc = rnd.sample(EXCS[:-1], rnd.randint(1, 2)) if rnd.random() < .2 else []
-    return {'name': name, 'decls': decls, 'doc': doc, 'method': False,
+    return {'name': name, 'decls': decls, 'doc': doc, 'method': False, 'chain_first': len(decls) >= 2 and rnd.random() < .2,
             'body': [gen_stmt(rnd, 2, callees) for _ in range(rnd.randint(1, 3))]}
 
 
@@ -97,10 +97,12 @@ def r_body(b, ind, out, prefix=''):
 
 
 def r_func(f, out, prefix='', strip=False):
-    for d in f['decls']:
-        if d[0] == 'raises': out.append(f'@deal.raises({", ".join(d[1])})')
-        elif d[0] == 'has': out.append('@deal.has(' + ', '.join(repr(m) for m in d[1]) + ')')
-        else: out.append(f'@deal.{d[0]}')
+    for i, d in enumerate(f['decls']):
+        if d[0] == 'raises': text = f'deal.raises({", ".join(d[1])})'
+        elif d[0] == 'has': text = 'deal.has(' + ', '.join(repr(m) for m in d[1]) + ')'
+        else: text = f'deal.{d[0]}'
+        # the same declarations, the first one written inside a literal deal.chain(...) above the others
+        out.append(f'@deal.chain({text})' if (i == 0 and f.get('chain_first')) else '@' + text)
     if strip:
         while out and out[-1].startswith('@deal.'): out.pop()
     out.append(f'def {f["name"]}(x):')
